@@ -1049,7 +1049,7 @@ theorem getAxesAligned_mem (arrays : List (List Axis)) (axes : List Axis) (h : g
         let c ← acc
         let common := match c with
           | none => ax
-          | some c => if c.size == 1 && ax.size > 1 then ax else c
+          | some c => if c.size == 1 && ax.size != 1 then ax else c
         if !(ax.size == 1 || ax.labels == common.labels) then .error .value else pure (some common)) acc = .ok (some c) →
       (c ∈ having ∨ acc = .ok (some c)) := by
     intro having
